@@ -1,15 +1,15 @@
 SPECIFICATION MCSpec
-CONSTANTS Sender = {"s1", "s2"}
-          MaxFaults = 2
+CONSTANTS Sender = {"s1"}
+          MaxFaults = 1
           MaxCfg = 0
           Addr = {"A"}
-          Stall = FALSE
+          Stall = TRUE
           QueueMode = FALSE
           QCap = 2
           MaxConn = 3
-          Broken = "keepwriter"
-          NPacks = 4
+          Broken = "resetwriter"
+          NPacks = 2
 CONSTRAINT ConnBound
 VIEW MCView
-INVARIANTS TypeOK FreshStart
+INVARIANTS TypeOK FramesWhole
 CHECK_DEADLOCK FALSE
